@@ -31,3 +31,14 @@ for d in /verif/seeded/S-C*; do
   esac
   m $d/patch.diff $p $extra
 done
+# round 2
+for d in /verif/seeded/S2-C*; do
+  s=$(basename $d); p=${s#S2-}; p=${p%%-*}
+  extra=""
+  case $s in
+    S2-C03-1) extra="C11";; S2-C03-2) extra="C11";; S2-C13-1) extra="C11";; S2-C13-2) extra="C11";;
+    S2-C05-1) extra="C08";; S2-C08-2) extra="C05";; S2-C14-2) extra="C02";; S2-C19-2) extra="C08";;
+    S2-C01-1) extra="C02";; S2-C12-1) extra="C08";;
+  esac
+  m $d/patch.diff $p $extra
+done
